@@ -427,6 +427,12 @@ func (t *threadSafeList[T]) PushBackList(other List[T]) {
 	t.mutex.Lock()
 	defer t.mutex.Unlock()
 
+	// pushing a list onto itself is legal (like in container/list): read from the inner list instead of re-entering
+	// the mutex that is already held
+	if other == List[T](t) {
+		other = t.list
+	}
+
 	t.list.PushBackList(other)
 }
 
@@ -434,6 +440,12 @@ func (t *threadSafeList[T]) PushBackList(other List[T]) {
 func (t *threadSafeList[T]) PushFrontList(other List[T]) {
 	t.mutex.Lock()
 	defer t.mutex.Unlock()
+
+	// pushing a list onto itself is legal (like in container/list): read from the inner list instead of re-entering
+	// the mutex that is already held
+	if other == List[T](t) {
+		other = t.list
+	}
 
 	t.list.PushFrontList(other)
 }
